@@ -278,8 +278,8 @@ def report_violation(prop, s, repo, cfg):
 def cmd_check(args):
     prop, tier = args.prop, args.tier
     t = TIERS[tier]
-    budget = float(os.environ.get("VERIF_BUDGET_S") or args.budget or t["budget_s"])
-    seed = int(os.environ.get("VERIF_SEED") or args.seed or 0)
+    budget = float(args.budget or os.environ.get("VERIF_BUDGET_S") or t["budget_s"])
+    seed = int(args.seed if args.seed is not None else (os.environ.get("VERIF_SEED") or 0))
     workers = int(args.workers or os.environ.get("VERIF_WORKERS") or min(16, os.cpu_count() or 4))
     repo = os.path.realpath(args.repo)
     cfg = build_cfg(repo, tier)
@@ -476,5 +476,19 @@ if __name__ == "__main__":
     except HarnessError as e:
         print("HARNESS-ERROR %s" % e)
         rc = EXIT_HARNESS
-    sys.stdout.flush()
+    except BaseException as e:  # any crash of the machinery is exit 2, never 1
+        if isinstance(e, SystemExit):
+            raise
+        import traceback
+
+        try:
+            print("HARNESS-ERROR unexpected %s: %s" % (type(e).__name__, e))
+            traceback.print_exc()
+        except Exception:
+            pass
+        rc = EXIT_HARNESS
+    try:
+        sys.stdout.flush()
+    except Exception:
+        pass
     sys.exit(rc)
